@@ -105,7 +105,7 @@ pub fn explore(ctx: &Ctx) {
     ctx.alphabet("shifts", json!(SHIFTS.iter().map(|s| format!("{:?}", s)).collect::<Vec<_>>()));
     // part 1: seam dates x all sites x one method (quick) / all dates (thorough)
     let p1 = params_conv(Method::Mwl);
-    let d1 = if quick { &seam } else { &all };
+    let d1 = &seam;
     ctx.alphabet("part1", json!({"method": "Mwl", "dates": d1.len(), "sites": sites.len()}));
     par_jobs(ctx, &sites, |site, l| {
         for &d in d1.iter() {
@@ -133,9 +133,9 @@ pub fn explore(ctx: &Ctx) {
             }
         }
     });
-    // part 3 (quick): every date for a few sites
-    if quick {
-        let few: Vec<Site> = vec![Site::new(45.0, 0.0, 0.0, 0.0), Site::new(-45.0, 135.0, 0.0, 11.0)];
+    // part 3: every date for a subset of the sites
+    {
+        let few: Vec<Site> = if quick { vec![Site::new(45.0, 0.0, 0.0, 0.0), Site::new(-45.0, 135.0, 0.0, 11.0)] } else { sites.iter().cloned().step_by(9).collect() };
         ctx.alphabet("part3", json!({"sites": few, "dates": all.len()}));
         let mut jobs3 = vec![];
         for s in &few {
